@@ -29,7 +29,7 @@ type GenOpts struct {
 func DefaultOpts() GenOpts {
 	return GenOpts{MaxTasks: 10, PredPct: 20, FallbackPct: 20, InstrPct: 30,
 		Spellings:  []int{SpLit, SpLit, SpLit, SpTop, SpMethod, SpVar, SpGeneric},
-		Kinds:      []TKind{KNamedInt, KNamedInt, KStruct, KPtr, KSlice, KMap, KGeneric, KNamedSlice, KU64, KI64, KStr, KArr, KBytes, KAny, KFuncT},
+		Kinds:      []TKind{KNamedInt, KNamedInt, KStruct, KPtr, KSlice, KMap, KGeneric, KNamedSlice, KU64, KI64, KStr, KArr, KBytes, KAny, KFuncT, KAnon},
 		WrapPct:    40,
 		BarePct:    12,
 		ImportPct:  20,
@@ -214,6 +214,9 @@ func GenFlow(r *Rand, name string, o GenOpts) *Program {
 		p.AutoInstrument = f.Instrument && r.Chance(1, 3)
 	}
 	f.SplitParams = len(f.Params) >= 2 && r.Chance(1, 5)
+	if len(f.Results) >= 2 && r.Chance(1, 3) {
+		f.SplitResults = 1 + r.Intn(2)
+	}
 	// option order: 0 params, 1 results, 2 concurrency, 3 instrument, 4.. emitters, then tasks interleaved
 	nopt := 4 + len(f.Emitters) + len(f.Tasks)
 	f.OptOrder = r.Perm(nopt)
@@ -391,6 +394,9 @@ func (g *flowGen) finish() {
 		if p.BareMix > 0 {
 			feat["bare-with-mutating-calls"] = true
 		}
+	}
+	if p.Flow != nil && p.Flow.SplitResults > 0 {
+		feat["two-results-options"] = true
 	}
 	if p.Flow != nil && p.Flow.ResultsVia {
 		feat["results-via-field"] = true
